@@ -1835,6 +1835,13 @@ fn wake_waiters(st: &mut State) {
 /// Entry of a vthread: registers, waits for the token.
 pub fn vthread_enter(id: usize) {
     SENT.with(|_| ());
+    // Make sure the crate's own thread-local exists (without a node) and is registered *after* the
+    // sentinel, so that it is destroyed before it. A thread whose first use of the crate happened
+    // inside the sentinel's destructor would otherwise create that thread-local during the
+    // destructor phase and have it destroyed after the thread left the scheduler - its node
+    // release would then run un-modelled, concurrently with the other threads (found as a
+    // non-reproducible "active_writers == 1 at the end" alarm).
+    let _ = verif::thread_node();
     VT.with(|v| v.set(id));
     EXITING.with(|e| e.set(false));
     let r = rt();
